@@ -248,6 +248,7 @@ func (p *Program) newInterp(ex *Explorer, initOK map[string]bool) *interpreter {
 		extCache:   map[*ssa.Function]externalFn{},
 		initOK:     initOK,
 		sharedInit: map[string]bool{},
+		regexps:    map[*value]*regexState{},
 		extraMutable: map[string]bool{},
 	}
 	runtimePkg := i.prog.ImportedPackage("runtime")
@@ -290,7 +291,7 @@ func (i *interpreter) resetGlobals(order []*ssa.Package) {
 
 func (p *Program) runPath(i *interpreter, ex *Explorer, solver *Solver, entry *ssa.Function, order []*ssa.Package, it workItem, cfg ExploreConfig) {
 	solver.NewPath()
-	ctx := &pathCtx{ex: ex, solver: solver, prefix: it.prefix, nameCnt: map[string]int{}, reach: map[string]bool{}, knownAct: map[string]*Term{}, assumes: map[string]bool{}, held: map[heldKey]int{}, doms: map[*Term]*byteDom{}, fixed: map[uint64][]fixedTerm{}, codecs: map[*value]*codecState{}}
+	ctx := &pathCtx{ex: ex, solver: solver, prefix: it.prefix, nameCnt: map[string]int{}, reach: map[string]bool{}, knownAct: map[string]*Term{}, assumes: map[string]bool{}, held: map[heldKey]int{}, doms: map[*Term]*byteDom{}, fixed: map[uint64][]fixedTerm{}, codecs: map[*value]*codecState{}, regexps: map[*value]*regexState{}}
 	if it.model != nil {
 		ctx.setModel(it.model)
 	}
